@@ -172,7 +172,12 @@ def fact(it, f):
         if not f:
             raise PathEnd()
         return
-    if LIFT:
+    if LIFT and all(conc(n) is not None for _, n in LIFT):
+        # concrete mapped extents: expanded over the mapped indices (quantifier-free)
+        js = [J for J, _ in LIFT]
+        cs = [z3.substitute(f, *[(J, z3.IntVal(v)) for J, v in zip(js, vals)]) for vals in itertools.product(*[range(conc(n)) for _, n in LIFT])]
+        f = z3.And(*cs) if cs else z3.BoolVal(True)
+    elif LIFT:
         js = [J for J, _ in LIFT]
         # unguarded in the mapped indices: the fresh symbols of the mapped evaluation are total functions of J, and every
         # library fact stated here is satisfiable for any J (conservative extension), cf. the module docstring
